@@ -22,7 +22,7 @@ func c02Class(src string) string {
 	switch {
 	case oaHasBareCR(src):
 		return clsBareCR
-	case srcRestrictedProduction(src):
+	case !fixedRestricted && srcRestrictedProduction(src):
 		return clsRestricted
 	case srcBacktickEscape(src):
 		return clsBacktickEsc
@@ -167,7 +167,7 @@ func c02Witnesses(c *oracleCtx) {
 	}
 	// generated witnesses: bare returns followed by ASI line breaks; LF replaced by CR
 	made := map[string]int{}
-	for i := 0; i < 4000 && !c.expired() && (made[clsRestricted] < 15 || made[clsBareCR] < 15); i++ {
+	for i := 0; i < 4000 && !c.expired() && ((!fixedRestricted && made[clsRestricted] < 15) || made[clsBareCR] < 15); i++ {
 		tree := c02Tree(c.r)
 		want := jsgen.Canon(tree)
 		src := jsgen.Render(tree, c.r, jsgen.Layout{ASI: true, Newlines: c.r.Intn(2) == 0})
